@@ -5,7 +5,8 @@ relation: error, or exactly the value of the complete fields present).
 Binding B3: for valid encodings written by the real WriteTo: every proper prefix (all of them for short
 encodings), every inflation/deflation of every embedded length (string, list, map, simple list), every
 substitution of a top-level field by a well-formed field of each other wire type; decoded by the real
-ReadFrom; TLC judges membership in Allowed.  Primitive readers on cut buffers are covered too.
+ReadFrom (and, for the TUP attribute map, by tup.UniAttribute.Decode: pseudo struct tup.Attr with the schema of
+Vt.TupAttr); TLC judges membership in Allowed.  Primitive readers on cut buffers are covered too.
 """
 import glob
 import json
@@ -28,7 +29,8 @@ def run(ctx):
     exe, schema = codecfam.prepare(ctx)
     nsh = 14
     d, last = codecfam.run_driver(ctx, exe, "mutants", "mut", ["-shards", str(nsh), "-per", str(ctx.pick(2, 30)),
-                                                                "-classes", "prefix,inflate,subst", "-cap", str(ctx.pick(5, 10))])
+                                                                "-classes", "prefix,inflate,subst", "-cap", str(ctx.pick(5, 10)),
+                                                                "-extra", "tup.Attr"])
     shards = sorted(glob.glob(os.path.join(d, "mut_*.ndjson")))
     total, bad, states, gen = codecfam.judge_dec(ctx, schema, shards, "c06", par=nsh)
     rejected_valid = []
